@@ -63,6 +63,24 @@ def run(ctx):
             camp.sh.maybe_flush()
             if i < 3:
                 ctx.sample({"program": prog})
+        # a validator placed after a member whose value is made at build time (Default, Rebuild, Const) judges the value that was written, in every scope
+        for d, c, op in itertools.product((0, 1, 3, 128), (0, 1, 3, 127), ("==", "!=", "<=", ">")):
+            if quick and rng.random() < 0.5:
+                continue
+            chk = A.Check(A.Bin(op, A.T("v"), A.C(c)))
+            for made in (A.Default(A.Alias("Byte"), d), A.Rebuild(A.Alias("Byte"), A.C(d)), A.Rebuild(A.Alias("Byte"), A.T("_params", "k")), A.Const(d, A.Alias("Byte"))):
+                kw = {"k": d}
+                mem = A.Renamed("v", made)
+                for prog, wrap in ((A.FocusedSeq("v", mem, chk), lambda v: v), (A.Struct(mem, chk), lambda v: {"v": v}), (A.Sequence(mem, chk), lambda v: [v, None]),
+                                   (A.Struct(A.Renamed("x", A.FocusedSeq("v", mem, chk)), A.Renamed("t", A.Alias("Byte"))), lambda v: {"x": v, "t": 1})):
+                    con = campaign.realizable(prog)
+                    if con is None:
+                        continue
+                    for v in (None, d, c, 2):
+                        camp.build(prog, con, wrap(v), b"", kw)
+                    for b0 in (d, c, 2):
+                        camp.parse(prog, con, bytes([b0, 1]), 0, kw)
+            camp.sh.maybe_flush()
         # the collection of OneOf / NoneOf may be any container: a bytes literal admits exactly its one-byte substrings for a one-byte member
         import construct as cs
         for name, mk, lst in (("OneOf", cs.OneOf, A.OneOf), ("NoneOf", cs.NoneOf, A.NoneOf)):
